@@ -387,6 +387,12 @@ impl<C: Config> Engine<C> {
             return Err(CyclicError);
         }
 
+        #[cfg(feature = "verif")]
+        qbice_storage::verif::task_point(
+            "scc_wait",
+            qbice_storage::verif::PointKind::Await,
+        )
+        .await;
         notified.await;
 
         Ok(false)
@@ -499,6 +505,13 @@ impl<C: Config, Q: Query> Snapshot<C, Q> {
             tfc: scc::HashSet::with_hasher(FxBuildHasher::default()),
         });
 
+        #[cfg(feature = "verif")]
+        qbice_storage::verif::task_point(
+            "cl_before_entry",
+            qbice_storage::verif::PointKind::Preempt,
+        )
+        .await;
+
         let engine = self.engine().clone();
         let result = match engine
             .computation_graph
@@ -514,6 +527,12 @@ impl<C: Config, Q: Query> Snapshot<C, Q> {
                 drop(self);
 
                 // wait for the existing computing to finish
+                #[cfg(feature = "verif")]
+                qbice_storage::verif::task_point(
+                    "cl_wait_existing",
+                    qbice_storage::verif::PointKind::Await,
+                )
+                .await;
                 notified_owned.await;
 
                 return None;
@@ -562,6 +581,12 @@ impl<C: Config, Q: Query> Snapshot<C, Q> {
                 drop(self);
 
                 // wait for the existing backward projection to finish
+                #[cfg(feature = "verif")]
+                qbice_storage::verif::task_point(
+                    "bp_wait_existing",
+                    qbice_storage::verif::PointKind::Await,
+                )
+                .await;
                 notified.await;
 
                 return None;
